@@ -315,6 +315,29 @@ def handler(c):
                         pass
         reused, _ = run_session(c, shared_ds=ds)
         return {'first': fresh, 'second': reused, 'other_ok': first['init']}
+    if c.get('mode') == 'same_dir':
+        # baseline on its own directory; then, on ONE other directory, a data source with the opposite adjustment
+        # setting is built and queried first, and a NEW source object with the right setting serves the session
+        m = c['market']
+        fresh, _ = run_session(c)
+        os.makedirs(TMPROOT, exist_ok=True)
+        d = tempfile.mkdtemp(prefix='sess_', dir=TMPROOT)
+        try:
+            write_csvs(d, m['assets'])
+            other = CSVDailyBarDataSource(d, Equity, adjust_prices=not m.get('adjust', True))
+            for t, _k in c.get('event_times', []):
+                for name in m['assets']:
+                    try:
+                        other.get_bid(ts(t), 'EQ:' + name)
+                        other.get_ask(ts(t), 'EQ:' + name)
+                    except Exception:
+                        pass
+            mine = CSVDailyBarDataSource(d, Equity, adjust_prices=m.get('adjust', True))
+        finally:
+            shutil.rmtree(d, ignore_errors=True)
+        universe = mk_universe(c['cfg']['universe'])
+        reused, _ = run_session(c, shared_ds=([mine], BacktestDataHandler(universe, data_sources=[mine])))
+        return {'first': fresh, 'second': reused}
     if c.get('mode') == 'pair':
         a, _ = run_session(c)
         c2 = dict(c)
